@@ -139,6 +139,11 @@ def describe_site(s):
 
 
 def run(ctx):
+    _run_main(ctx)
+    token_lookup_hides_deleted(ctx)
+
+
+def _run_main(ctx):
     F = ctx.facts
     ctx.explanation = ("Every `true` of check_user_auth_token_valid / check_api_token_valid lies under the validity window and an allowed session/grace "
                        "alternative; revoked ⇒ false; identities are built from tokens only after those checks; parsed tokens are built only after "
@@ -316,3 +321,33 @@ def run(ctx):
                 ctx.check(ok, "K1-carriers", c, f"calls:{short(tgt, 1)}" + (f"#{i}" if i else ""), "with a verified token",
                           f"{short(tgt, 1)} is called with a token that does not come from a verified parse (no ok(validate_and_parse..) and no verified "
                           f"carrier pattern among the guards: {s.render()})", file=d["file"], line=s.line)
+
+
+# ---------------------------------------------------------------------------------------------------------------------
+# a token must never resolve to a deleted account: every entry lookup on the token -> identity paths hides recycled and
+# tombstoned entries (added after seeded change C32: `filter_all!` in the compact API-token lookup accepted the token
+# of a service account sitting in the recycle bin)
+
+def token_lookup_hides_deleted(ctx):
+    R = "K1-token-lookup-hides-deleted"
+    F = ctx.facts
+    names = F.find_fns(LIB, r"^kanidmd_lib::idm::server::IdmServerTransaction::[a-z_0-9]+$")
+    ctx.floor(R, "token/identity resolution functions (IdmServerTransaction defaults)", len(names), 10)
+    n_hidden = 0
+    for name in sorted(names):
+        f = ctx.fn(LIB, name)
+        for c in all_calls(f["body"]):
+            cs = callee_any(c)
+            raw = [x for x in cs if x.startswith("kanidmd_lib::filter::Filter::") and (x.endswith("::new") or x.endswith("::new_recycled"))]
+            rec = [x for x in cs if x.endswith("::into_recycled")]
+            if any(x.endswith("::new_ignore_hidden") or x.endswith("::into_ignore_hidden") for x in cs):
+                n_hidden += 1
+            if raw or rec:
+                ctx.violation(R, name, "lookup-includes-recycled-entries",
+                              f"{short(name, 1)} builds an entry lookup with {short((raw or rec)[0], 2)}, which also matches recycled and tombstoned entries: a token "
+                              "(or certificate / sync credential) of a deleted account resolves to the entry in the recycle bin — which keeps all its session "
+                              "attributes — and is accepted until the bin is purged. Use the hidden-ignoring constructor (filter! / new_ignore_hidden).",
+                              file=f["file"], line=c.get("line"))
+    ctx.floor(R, "hidden-ignoring lookups on these paths", n_hidden, 2)
+    if not any(v["rule"] == R for v in ctx.violations):
+        ctx.ok(R, "kanidmd_lib::idm::server::IdmServerTransaction", "no-raw-filter", f"{len(names)} functions, {n_hidden} lookups, all hide deleted entries")
